@@ -22,6 +22,7 @@ BRANCH_TIMEOUT_SHORT_MS = 300
 PATH_SOLVER_OPTIONS = dict(kv.split("=") for kv in os.environ.get("VERIF_PATH_SOLVER", "").split(",") if "=" in kv)
 PATH_SOLVER_OPTIONS = {k: (int(v) if v.lstrip("-").isdigit() else (v == "true" if v in ("true", "false") else v)) for k, v in PATH_SOLVER_OPTIONS.items()}
 MAX_PATHS = int(os.environ.get("VERIF_MAX_PATHS", "4000"))
+MAX_EXPLORE_S = float(os.environ.get("VERIF_MAX_EXPLORE_S", "240"))
 CVC5 = "/usr/bin/cvc5"
 
 
@@ -187,10 +188,12 @@ def explore(case_name, run, fsem="std", max_paths=None, solver_options=None):
     work = [[]]
     pid = 0
     limit = max_paths or MAX_PATHS
+    t_start = time.time()
     while work:
         decisions = work.pop()
         pid += 1
-        if pid > limit:
+        if pid > limit or time.time() - t_start > MAX_EXPLORE_S:
+            # (path or time budget of one contract exhausted: reported as undecided, never as proved)
             res.truncated = True
             break
         p = Path(case_name, decisions, pid, fsem, solver_options)
